@@ -303,6 +303,21 @@ theorem close_always_reaches_unregister :
     Gen.perIPTLSConn_Close_unregisterTopLevel = true ∧ Gen.perIPTLSConn_Close_earlyReturnGuards = ["cc == nil"] := by
   decide
 
+/-- **Concurrent closers.**  Of any number of parties closing the same wrapped connection, exactly one owns the
+    transport: both Close methods set `c.Conn = nil` inside their first lock region and BEFORE calling the transport's
+    Close (regenerated from peripconn.go), so every other caller — also one arriving while the owner is still inside the
+    transport's Close — finds `cc == nil`.  In the model that caller is the event `dupClose`: enabled exactly when the
+    wrapper holds no registration, and it changes nothing (no second Unregister, no second pool Put). -/
+theorem second_close_is_noop (s : State) (i : Nat) (c : Conn) (hc : s.conns[i]? = some c) :
+    Gen.perIPConn_Close_nilOutUnderLockBeforeTransportClose = true ∧
+    Gen.perIPTLSConn_Close_nilOutUnderLockBeforeTransportClose = true ∧
+    (c.reg = true → step s (.conn i .dupClose) = none) ∧
+    (c.reg = false → ∃ s', step s (.conn i .dupClose) = some s' ∧ s'.perIP = s.perIP ∧ s'.conc = s.conc ∧
+      s'.opn = s.opn ∧ s'.conns[i]? = some c) := by
+  have hi : i < s.conns.length := (List.getElem?_eq_some_iff.mp hc).1
+  refine ⟨by decide, by decide, fun h => by simp [step, hc, act, h], fun h => ?_⟩
+  exact ⟨{ s with conns := s.conns.set i c }, by simp [step, hc, act, h], rfl, rfl, rfl, List.getElem?_set_self hi⟩
+
 /-- **Idle retirement cannot raise the capacity.**  In every reachable state — in particular after the cleaner
     retired idle workers (`cleanIdle`) and after retired workers left (`workerExit`), in any interleaving with accepts
     and releases — a pool's `workersCount` is exactly its idle + retiring + busy workers and never exceeds
@@ -431,5 +446,10 @@ example : ((run (State.init ⟨1, 0, false⟩)
      .conn 0 .cleanupOpen, .conn 0 .cleanupConc, .conn 0 (.closeConn false), .conn 0 .workerRelease,
      .cleanIdle 0, .accept 0 0, .conn 1 .skipWrap, .conn 1 .openInc, .conn 1 .getCh]).map fun s =>
       (s.conns.map (·.phase), servingAll s)) = some ([.done .served, .noWorker], 0) := by decide
+
+/-- a second closer arriving after the owner took the wrapper changes nothing; before that it is not this event -/
+example : ((run (State.init cfg1) (twoDirect.take 7 ++ [.conn 0 .cleanupOpen, .conn 0 (.closeConn false), .conn 0 .dupClose,
+    .conn 0 .dupClose, .conn 0 .releaseConc])).map fun s => (getConc s, getOpen s, s.perIP 7)) = some (0, 0, 0) := by decide
+example : (run (State.init cfg1) (twoDirect.take 7 ++ [.conn 0 .dupClose])).map (·.conc) = none := by decide
 
 end Fh.Props.C12
